@@ -61,7 +61,8 @@ theorem count_holdsW_set {l : List Stopper} {j : Nat} {st st' : Stopper} (h : l[
 no other statement (`Proofs/SkeletonGroup.lean`) -/
 theorem progs : stopProg = [.lock, .cancel, .unlock] ∧ sawProg = [.lock, .cancel, .unlock, .wait] :=
   Juniper.Proofs.SkeletonGroup.under
-    (And.intro Juniper.Proofs.SkeletonGroup.pskelGroupStop_tie Juniper.Proofs.SkeletonGroup.pskelGroupStopAndWait_tie)
+    (And.intro groupWiring_tie
+      (And.intro Juniper.Proofs.SkeletonGroup.pskelGroupStop_tie Juniper.Proofs.SkeletonGroup.pskelGroupStopAndWait_tie))
     (by decide)
 
 /-- (holdsW, safe) as a function of what a stopper still has to do -/
